@@ -1,6 +1,228 @@
-//! sinktools adaptors (property C14) -- filled in after C12.
+//! sinktools adaptors (property C14): scripted, call-logging `futures::Sink` downstreams with
+//! error injection, a scripted initializer future for `LazySink`, and the driver loop
+//! (poll_ready until Ready / start_send per item, then poll_flush, then poll_close; stop at the
+//! first error) using a no-op waker.
+use std::cell::{Cell, RefCell};
+use std::collections::VecDeque;
+use std::future::Future;
+use std::pin::Pin;
+use std::rc::Rc;
+use std::task::{Context, Poll, Waker};
+
+use futures::Sink;
 use hvcommon::{Value, json};
 
-pub fn run_sink(_case: &Value) -> Value {
-    json!({ "bad_case": "sink cases not implemented yet" })
+use crate::{F, G, Log, Q, bools, items_of, new_log, nth};
+
+/// 0 = Ready(Ok), 1 = Pending, 2 = Ready(Err)
+fn resv(v: &Value) -> VecDeque<u8> {
+    v.as_array().map(|a| a.iter().map(|x| x.as_u64().unwrap_or(0) as u8).collect()).unwrap_or_default()
+}
+
+pub struct RecSink {
+    rs: VecDeque<u8>,
+    ss: VecDeque<bool>,
+    fs: VecDeque<u8>,
+    cs: VecDeque<u8>,
+    log: Log,
+}
+
+impl RecSink {
+    fn new(script: Option<&Value>, log: &Log) -> Self {
+        match script {
+            Some(s) => RecSink { rs: resv(&s[0]), ss: bools(&s[1]), fs: resv(&s[2]), cs: resv(&s[3]), log: log.clone() },
+            None => RecSink { rs: VecDeque::new(), ss: VecDeque::new(), fs: VecDeque::new(), cs: VecDeque::new(), log: log.clone() },
+        }
+    }
+    fn answer(&mut self, tag: &str, r: u8) -> Poll<Result<(), u8>> {
+        self.log.borrow_mut().push(json!([tag, r]));
+        match r {
+            0 => Poll::Ready(Ok(())),
+            1 => Poll::Pending,
+            _ => Poll::Ready(Err(7)),
+        }
+    }
+}
+
+impl Sink<u64> for RecSink {
+    type Error = u8;
+    fn poll_ready(self: Pin<&mut Self>, _cx: &mut Context<'_>) -> Poll<Result<(), u8>> {
+        let this = self.get_mut();
+        let r = this.rs.pop_front().unwrap_or(0);
+        this.answer("r", r)
+    }
+    fn start_send(self: Pin<&mut Self>, item: u64) -> Result<(), u8> {
+        let this = self.get_mut();
+        let ok = this.ss.pop_front().unwrap_or(true);
+        this.log.borrow_mut().push(json!(["s", item, ok as u8]));
+        if ok { Ok(()) } else { Err(7) }
+    }
+    fn poll_flush(self: Pin<&mut Self>, _cx: &mut Context<'_>) -> Poll<Result<(), u8>> {
+        let this = self.get_mut();
+        let r = this.fs.pop_front().unwrap_or(0);
+        this.answer("f", r)
+    }
+    fn poll_close(self: Pin<&mut Self>, _cx: &mut Context<'_>) -> Poll<Result<(), u8>> {
+        let this = self.get_mut();
+        let r = this.cs.pop_front().unwrap_or(0);
+        this.answer("c", r)
+    }
+}
+
+/// Initializer future of a lazy sink: Pending `pends` times, then Ok(sink) or Err.
+struct InitFut {
+    pends: u64,
+    result: Option<Result<RecSink, u8>>,
+}
+impl Future for InitFut {
+    type Output = Result<RecSink, u8>;
+    fn poll(self: Pin<&mut Self>, _cx: &mut Context<'_>) -> Poll<Self::Output> {
+        let this = self.get_mut();
+        if this.pends > 0 {
+            this.pends -= 1;
+            return Poll::Pending;
+        }
+        Poll::Ready(this.result.take().expect("initializer future polled after completion"))
+    }
+}
+
+macro_rules! sdrive {
+    ($p:expr, $items:expr, $fuel:expr) => {{
+        let mut p = std::pin::pin!($p);
+        let mut cx = Context::from_waker(Waker::noop());
+        let mut fuel: u64 = $fuel;
+        let mut tr: Vec<Value> = Vec::new();
+        let mut out = "fin";
+        'outer: {
+            for item in $items {
+                loop {
+                    if fuel == 0 {
+                        out = "fuel";
+                        break 'outer;
+                    }
+                    fuel -= 1;
+                    match p.as_mut().poll_ready(&mut cx) {
+                        Poll::Ready(Ok(())) => {
+                            tr.push(json!(["r", 0]));
+                            break;
+                        }
+                        Poll::Pending => tr.push(json!(["r", 1])),
+                        Poll::Ready(Err(_)) => {
+                            tr.push(json!(["r", 2]));
+                            out = "fail";
+                            break 'outer;
+                        }
+                    }
+                }
+                match p.as_mut().start_send(item) {
+                    Ok(()) => tr.push(json!(["s", 1])),
+                    Err(_) => {
+                        tr.push(json!(["s", 0]));
+                        out = "fail";
+                        break 'outer;
+                    }
+                }
+            }
+            loop {
+                if fuel == 0 {
+                    out = "fuel";
+                    break 'outer;
+                }
+                fuel -= 1;
+                match p.as_mut().poll_flush(&mut cx) {
+                    Poll::Ready(Ok(())) => {
+                        tr.push(json!(["f", 0]));
+                        break;
+                    }
+                    Poll::Pending => tr.push(json!(["f", 1])),
+                    Poll::Ready(Err(_)) => {
+                        tr.push(json!(["f", 2]));
+                        out = "fail";
+                        break 'outer;
+                    }
+                }
+            }
+            loop {
+                if fuel == 0 {
+                    out = "fuel";
+                    break 'outer;
+                }
+                fuel -= 1;
+                match p.as_mut().poll_close(&mut cx) {
+                    Poll::Ready(Ok(())) => {
+                        tr.push(json!(["c", 0]));
+                        break;
+                    }
+                    Poll::Pending => tr.push(json!(["c", 1])),
+                    Poll::Ready(Err(_)) => {
+                        tr.push(json!(["c", 2]));
+                        out = "fail";
+                        break 'outer;
+                    }
+                }
+            }
+        }
+        (out, tr)
+    }};
+}
+
+pub fn run_sink(case: &Value) -> Value {
+    let comb = case["comb"].as_str().unwrap_or("");
+    let fuel = case["fuel"].as_u64().unwrap_or(1000);
+    let items = items_of(case);
+    let downs = case["downs"].as_array().cloned().unwrap_or_default();
+    let nd = if comb == "unzip" { 2 } else { 1 };
+    let logs: Vec<Log> = (0..nd).map(|_| new_log()).collect();
+    let rec = |i: usize| RecSink::new(downs.get(i), &logs[i]);
+    let ns = || items.iter().map(|i| nth(i, 0)).collect::<Vec<u64>>();
+    let inits = Rc::new(Cell::new(0u64));
+    let (out, tr) = match comb {
+        "map" => {
+            let f = F::parse(&case["f"]);
+            sdrive!(sinktools::map(move |x: u64| f.ap(x), rec(0)), ns(), fuel)
+        }
+        "filter" => {
+            let q = Q::parse(&case["q"]);
+            sdrive!(sinktools::filter(move |x: &u64| q.ap(*x), rec(0)), ns(), fuel)
+        }
+        "filter_map" => {
+            let q = Q::parse(&case["q"]);
+            let f = F::parse(&case["f"]);
+            sdrive!(
+                sinktools::filter_map(move |x: u64| if q.ap(x) { Some(f.ap(x)) } else { None }, rec(0)),
+                ns(),
+                fuel
+            )
+        }
+        "flat_map" => {
+            let g = G::parse(&case["g"]);
+            sdrive!(sinktools::flat_map(move |x: u64| g.ap(x), rec(0)), ns(), fuel)
+        }
+        "flatten" => {
+            sdrive!(sinktools::flatten::<Vec<u64>, _>(rec(0)), items.clone(), fuel)
+        }
+        "unzip" => {
+            let ps = items.iter().map(|i| (nth(i, 0), nth(i, 1))).collect::<Vec<_>>();
+            sdrive!(sinktools::unzip(rec(0), rec(1)), ps, fuel)
+        }
+        "lazy" => {
+            let pends = case["init_pends"].as_u64().unwrap_or(0);
+            let ok = case["init_ok"].as_bool().unwrap_or(true);
+            let inner = RefCell::new(Some(rec(0)));
+            let inits2 = inits.clone();
+            let lazy = sinktools::lazy::LazySink::new(move || {
+                inits2.set(inits2.get() + 1);
+                let sink = inner.borrow_mut().take().expect("initializer called twice");
+                InitFut { pends, result: Some(if ok { Ok(sink) } else { Err(9) }) }
+            });
+            sdrive!(lazy, ns(), fuel)
+        }
+        other => return json!({ "bad_case": format!("unknown sink adaptor {other}") }),
+    };
+    json!({
+        "out": out,
+        "trace": tr,
+        "logs": logs.iter().map(|l| Value::Array(l.borrow().clone())).collect::<Vec<_>>(),
+        "inits": inits.get(),
+    })
 }
